@@ -25,6 +25,9 @@ pub const TOKENS: &[&str] = &[
     "\"b\"", "'", "\"", "nil", "true", "empty", "blank",
     // identifiers, filters, text
     "x", "a.b", "upcase", "append", "é", "👍", "\t", "\n", "{", "}", "%", "-",
+    // case variants of the literal keywords and identifiers that merely start with one (the
+    // grammar matches literals as prefixes; conversion assumes the exact lower-case spelling)
+    "True", "FALSE", "Nil", "NULL", "Empty", "BLANK", "trueish", "nilx", "x-",
 ];
 
 pub const ELEMENTS: &[&str] = &[
